@@ -135,14 +135,15 @@ def make_reg(spec, n):
     hh, pp = (h_l1, prox_l1) if kind == "l1" else (h_l2, prox_l2)
     lh = lam * np.sqrt(n) if kind == "l1" else lam
     if use_args:
+        # different tuples for h and prox (different lengths, different tags), so that a mix-up cannot go unnoticed
         def h(x, *a):
             log["h"].append(a)
             return hh(x, a[0])
 
         def prox(x, u, *a):
             log["prox"].append(a)
-            return pp(x, u, a[0])
-        return h, prox, lh, (lam,), (lam,), log
+            return pp(x, u, a[1]) if len(a) == 3 else pp(x, u, a[0])
+        return h, prox, lh, (lam, "for-h"), ("for-prox", lam, 3), log
 
     def h(x, *a):
         log["h"].append(a)
